@@ -213,7 +213,7 @@ int main(int argc, char **argv)
 	OPS.nletters = nlt; OPS.apply = apply; OPS.key = key; OPS.name = lname;
 	OPS.maxdepth = depth ? depth : a.thorough ? 7 : 5;
 	xp_describe_job = describe_job;
-	xp_init(hc_san_as ? hc_san_as : "C20", a.tier, 1 << 25, a.budget_s);
+	xp_init(hc_san_as ? hc_san_as : "C20", a.tier, a.thorough ? 1 << 26 : 1 << 25, a.budget_s);
 	xp_guard(hc_san_as, &W.cur, 1);
 	if (a.replay) { int j = xp_load_replay(a.replay); boot(j / nlt); eb_replay(&OPS, a.verbose); return 0; }
 	hc_quiet();
